@@ -174,6 +174,39 @@ impl<T> InFlightBuffers<T> {
     }
 }
 
+/// H8 (verification hook): drive `InFlightBuffers` with drop-tracking tokens.
+/// ops: (0, _) push, (1, i) mark_in_flight, (2, i) mark_unqueued, (3, i) mark_complete; the value
+/// is dropped at the end. Returns the mark_complete results and, per buffer, whether it was freed.
+#[cfg(all(feoxdb_verif, target_os = "linux"))]
+pub(crate) fn verif_inflight_sim(ops: &[(u8, usize)]) -> (Vec<bool>, Vec<bool>) {
+    use std::sync::atomic::AtomicBool;
+    struct Token(Arc<AtomicBool>);
+    impl Drop for Token {
+        fn drop(&mut self) {
+            self.0.store(true, Ordering::SeqCst);
+        }
+    }
+    let mut flags = Vec::new();
+    let mut completes = Vec::new();
+    let mut buffers = InFlightBuffers::with_capacity(u128::BITS as usize);
+    for (op, index) in ops {
+        match op {
+            0 => {
+                let flag = Arc::new(AtomicBool::new(false));
+                flags.push(Arc::clone(&flag));
+                buffers.push(Token(flag));
+            }
+            1 => buffers.mark_in_flight(*index),
+            2 => buffers.mark_unqueued(*index),
+            3 => completes.push(buffers.mark_complete(*index)),
+            _ => {}
+        }
+    }
+    drop(buffers);
+    let freed = flags.iter().map(|flag| flag.load(Ordering::SeqCst)).collect();
+    (completes, freed)
+}
+
 #[cfg(any(target_os = "linux", test))]
 impl<T> Drop for InFlightBuffers<T> {
     fn drop(&mut self) {
